@@ -8,6 +8,15 @@ ALL = ['C%02d' % i for i in range(1, 21)]
 
 # id -> (technique, level text, level note, design ref)
 CHECKS = {
+    'C18': (
+        'controlled-scheduler interleaving exploration (seeded, call granularity, cooperative locks) + free-running stress',
+        'For 4 schema sources, Hypothesis draws schedule seeds, 2-4 threads, switch probabilities and per-thread call plans; all '
+        'threads race build() of one unbuilt schema object and then validate / decode documents; a baton-passing scheduler switches '
+        'threads at function calls inside the package (sys.settrace) and at contended cooperative locks. Per-thread results must equal '
+        'the sequential baseline, component identities must not change after any thread\'s build() returned (built once), and the final '
+        'signature must equal a sequential build\'s. A free-running tier with switch interval 1e-6 complements it. Refutes only.',
+        'trusted: sequential run as reference; no claim about preemption inside C code beyond the free-running tier',
+        'DESIGN.md section 3 C18'),
     'C14': (
         'metamorphic soundness testing of accepted restrictions with exact language inclusion as counter-example finder',
         'Hypothesis base content models x systematic derivation candidates (all single-node occurrence changes, drops, additions, '
